@@ -467,7 +467,10 @@ def judge(param, kind, key, template, base_path, raw, case, record, body_kind, N
             if kind == "object" and (param.get("style") in (None, "form")) and param.get("explode") in (True, None):
                 decoded = {k: v for k, v in decoded.items() if k in generated[name]} if isinstance(generated[name], dict) else decoded
             if not coerce_equal(generated[name], decoded):
-                viols.append((f"C06/query-value-not-recovered:{key}", f"generated {generated[name]!r}, decoded {decoded!r} from {query!r}"))
+                k = f"C06/query-value-not-recovered:{key}"
+                if kind == "object" and param.get("style") in (None, "form") and param.get("explode") is None:
+                    k = "C06/query-object-without-explode-loses-values"
+                viols.append((k, f"generated {generated[name]!r}, decoded {decoded!r} from {query!r}"))
         except Exception as exc:
             viols.append((f"C06/query-value-not-decodable:{key}", f"{query!r}: {exc}"))
     if location == "header" and name in generated:
@@ -572,7 +575,7 @@ def wsgi_part(rng, emit, capture, tier):
             for k, what in viols:
                 if "unexpected-header" in k:
                     continue
-                emit.viol(k if k == "C06/matrix-non-exploded-value-lacks-parameter-name" else k + ":wsgi", what, context)
+                emit.viol(k if k in ("C06/matrix-non-exploded-value-lacks-parameter-name", "C06/query-object-without-explode-loses-values") else k + ":wsgi", what, context)
 
 
 def replay(case):
